@@ -178,6 +178,8 @@ def c08(run):
     prog = run.prog
     r6_dispatch.run_r6(run)
     r6_dispatch.check_array_branch_dimension(run)
+    r6_dispatch.check_reflected_guards(run)
+    r6_dispatch.check_guard_direction(run)
     run.exhaustive = True
     r7_binary.run_r7(run, helpers=False, dunders=True)
     dund = [f for f in prog.analysed_functions() if f.cls is not None and f.name in r7_binary.BIN_DUNDERS]
@@ -232,6 +234,8 @@ def c09(run):
     r7_binary.run_r7(run, helpers=True, dunders=False)
     r8_accessors.run_r8(run)
     r8_accessors.check_accessor_slots(run)
+    r8_accessors.check_operator_fastpaths(run)
+    r8_accessors.check_list_truth(run, [f for f in prog.analysed_functions() if not f.module.short.startswith(('base/', 'stdlib/')) and f.module.short != 'timing'])
     r8_accessors.check_element_slices(run, [k for k in r8_accessors.ACCESSORS if k.startswith('twist:SMTwist.')])
     if r8_accessors.check_zip_lengths(run, [f for f in prog.analysed_functions() if not f.module.short.startswith(('base/', 'stdlib/'))
                                             and f.module.short != 'timing']) < 6:
@@ -729,6 +733,7 @@ def c06(run):
                              alts=('qqmul(qqmul(P0, pure(P1)), conj(P0))[1:4]',))
     r16_tables._dualquat(run)
     r22_dualquat.check_point_route(run)
+    r16_tables.check_udq_construction(run, rule='R22')    # ... over the stored pair (r, t r / 2) the constructor makes from an SE3
     r16_tables.check_pair_integrity(run, rule='R22')      # (X*Y)*p goes through UnitDualQuaternion(real, dual): the pair is stored as given
     r7_binary.check_helper_operand_order(run)             # ... and through quaternion products whose operands stay in order
     # X.inv() * (X * p) == p: the inverse used by the point laws is the structured inverse, element by element
@@ -812,7 +817,7 @@ def c13(run):
     # Ad(T^-1) = Ad(T)^-1 is stated with the group inverse: X.inv() and X ** -n are closed (R15c on the group operations)
     r15_closed.check_unchecked_sites(run, only=('inv', '__pow__'))
     fs13 = _scope_rules(run, 'C13')
-    r11_symbolic.check_allocations(run, only={f.key for f in fs13}, floor=4)
+    r11_symbolic.check_allocations(run, only={f.key for f in fs13}, floor=4, symbolic=False)
     run.floor('R16', 20)
     run.explanation = ('Lie-algebra maps, table part: skew (n=1, n=3) equals the antisymmetric cross-product matrix entry by entry; vex '
                        'reads half the antisymmetric differences and vex(skew(v)) = v holds by composing the two literal tables; '
@@ -849,6 +854,9 @@ def c18(run):
     prog = run.prog
     r4_predicates.run_vector_predicates(run)        # isprismatic / isrevolute / unit are decided by iszerovec and isunitvec
     r8_accessors.check_element_slices(run, ['twist:SMTwist.isprismatic', 'twist:SMTwist.isrevolute', 'twist:SMTwist.isunit'])
+    # ... and answer with a list for several values: as a condition they need len(self) == 1
+    if r8_accessors.check_list_truth(run, [f for f in prog.analysed_functions() if f.module.short == 'twist']) < 2:
+        run.error('R8t: fewer than 2 truth-value uses of the list-valued twist accessors (anchor not found in the current source)')
     r10_args.run_r10(run, [prog.func('twist:Twist3.exp'), prog.func('twist:Twist2.exp'), prog.func('twist:Twist3.Rx'),
                            prog.func('twist:Twist3.Ry'), prog.func('twist:Twist3.Rz')])
     for k in ('twist:SMTwist.isprismatic', 'twist:SMTwist.isrevolute', 'twist:SMTwist.isunit', 'twist:Twist3.se3', 'twist:Twist2.se2',
